@@ -69,6 +69,8 @@ type World struct {
 	// allocatable of the first listed node of the group's last non-empty scan in this controller
 	// incarnation: the "last observed node size" used when scaling from zero
 	LastSize map[int]v1.ResourceList
+	// FleetFails: consecutive failed fleet provisionings per group on the current provider object
+	FleetFails map[int]int
 
 	uidSeq  int
 	podSeq  map[int]int // per group, so that changes inside one group do not rename another group's objects
@@ -277,10 +279,13 @@ type PodSpec struct {
 	Daemon  bool   `json:"daemon,omitempty"`
 	Static  bool   `json:"static,omitempty"`
 	InitCPU int64  `json:"initCPU,omitempty"`
-	InitMem int64  `json:"initMem,omitempty"`
-	OverCPU int64  `json:"overCPU,omitempty"`
-	OverMem int64  `json:"overMem,omitempty"`
-	Split   int    `json:"split,omitempty"` // number of containers the request is split over (>=1)
+	// a second init container (requests of init containers count by their per-resource maximum)
+	Init2CPU int64 `json:"init2CPU,omitempty"`
+	Init2Mem int64 `json:"init2Mem,omitempty"`
+	InitMem  int64 `json:"initMem,omitempty"`
+	OverCPU  int64 `json:"overCPU,omitempty"`
+	OverMem  int64 `json:"overMem,omitempty"`
+	Split    int   `json:"split,omitempty"` // number of containers the request is split over (>=1)
 	// Cross adds a required node-affinity expression that mentions another group without selecting it:
 	// "notin:<g>" = (g's key NotIn [g's value]), "otherkey:<g>" = (unrelated key In [g's value]), "exists:<g>" = (g's key Exists)
 	Cross    string `json:"cross,omitempty"`
@@ -336,6 +341,9 @@ func (w *World) NewPod(s PodSpec) *v1.Pod {
 	}
 	if s.InitCPU > 0 || s.InitMem > 0 {
 		p.Spec.InitContainers = []v1.Container{{Name: "init", Resources: v1.ResourceRequirements{Requests: v1.ResourceList{v1.ResourceCPU: qty(s.InitCPU), v1.ResourceMemory: qtyB(s.InitMem)}}}}
+		if s.Init2CPU > 0 || s.Init2Mem > 0 {
+			p.Spec.InitContainers = append(p.Spec.InitContainers, v1.Container{Name: "init2", Resources: v1.ResourceRequirements{Requests: v1.ResourceList{v1.ResourceCPU: qty(s.Init2CPU), v1.ResourceMemory: qtyB(s.Init2Mem)}}})
+		}
 	}
 	if s.OverCPU > 0 || s.OverMem > 0 {
 		p.Spec.Overhead = v1.ResourceList{v1.ResourceCPU: qty(s.OverCPU), v1.ResourceMemory: qtyB(s.OverMem)}
@@ -646,6 +654,17 @@ func (w *World) Apply(a Action) (rec *ScanRecord, ok bool) {
 					ts := metav1.NewTime(time.Now().Add(time.Duration(a.N) * time.Second).Truncate(time.Second))
 					p.DeletionTimestamp = &ts
 				}
+			}
+		}
+	case "clonePod": // same name, other namespace, own UID (pod names are unique per namespace only)
+		for _, p := range w.Pods {
+			if len(a.Names) > 0 && p.Name == a.Names[0] && p.Namespace != a.Val {
+				q := p.DeepCopy()
+				q.Namespace = a.Val
+				w.uidSeq++
+				q.UID = types.UID(fmt.Sprintf("uid-%d", w.uidSeq))
+				w.Pods = append(w.Pods, q)
+				break
 			}
 		}
 	case "resizePod": // in-place resize: same pod (name, UID), other requests
